@@ -1030,6 +1030,9 @@ func (m *RedisMessage) AsXRead() (ret map[string][]XRangeEntry, err error) {
 		return nil, err
 	}
 	if m.IsMap() {
+		if len(m.values())%2 != 0 {
+			return nil, errOddMap(m.typ)
+		}
 		ret = make(map[string][]XRangeEntry, len(m.values())/2)
 		for i := 0; i < len(m.values()); i += 2 {
 			if ret[m.values()[i].string()], err = m.values()[i+1].AsXRange(); err != nil {
@@ -1127,6 +1130,9 @@ func (m *RedisMessage) AsXReadSlices() (map[string][]XRangeSlice, error) {
 	var ret map[string][]XRangeSlice
 	var err error
 	if m.IsMap() {
+		if len(m.values())%2 != 0 {
+			return nil, errOddMap(m.typ)
+		}
 		ret = make(map[string][]XRangeSlice, len(m.values())/2)
 		for i := 0; i < len(m.values()); i += 2 {
 			if ret[m.values()[i].string()], err = m.values()[i+1].AsXRangeSlices(); err != nil {
@@ -1554,6 +1560,9 @@ func (m *RedisMessage) ToAny() (any, error) {
 	case typeInteger:
 		return m.intlen, nil
 	case typeMap:
+		if len(m.values())%2 != 0 {
+			return nil, errOddMap(m.typ)
+		}
 		vs := make(map[string]any, len(m.values())/2)
 		for i := 0; i < len(m.values()); i += 2 {
 			if v, err := m.values()[i+1].ToAny(); err != nil && !IsRedisNil(err) {
@@ -1636,6 +1645,9 @@ func (m *RedisMessage) setExpireAt(pttl int64) {
 }
 
 func toMap(values []RedisMessage) (map[string]RedisMessage, error) {
+	if len(values)%2 != 0 {
+		return nil, errOddMap(typeMap)
+	}
 	r := make(map[string]RedisMessage, len(values)/2)
 	for i := 0; i < len(values); i += 2 {
 		if values[i].typ == typeBlobString || values[i].typ == typeSimpleString {
